@@ -55,6 +55,7 @@ var items = []item{
 	{"unicode-spaces", " \u2003\u0085\u3000 ", kBad},
 	{"comment", `<!-- c -->`, kBad},
 	{"procinst", `<?pi x?>`, kBad},
+	{"xml-declaration", `<?xml version='1.0'?>`, kBad}, // the one processing instruction a parser knows by name: legal before the header only
 	{"directive", `<!DOCTYPE x>`, kBad},
 	{"restart", `<stream:stream xmlns='jabber:client' xmlns:stream='http://etherx.jabber.org/streams' version='1.0'>`, kBad},
 	{"stream-other", `<stream:other/>`, kBad},
